@@ -60,13 +60,14 @@ type synObs struct {
 
 type synWorld struct {
 	*world
-	chain *vh.Chain
-	epoch time.Time
-	total int
-	s0    int
-	mode  string
-	mmu   sync.Mutex
-	ctl   *sched.Ctl
+	chain     *vh.Chain
+	epoch     time.Time
+	total     int
+	s0        int
+	mode      string
+	mmu       sync.Mutex
+	ctl       *sched.Ctl
+	timewarps map[string]bool
 }
 
 func (sw *synWorld) tipNow() uint64 {
@@ -129,6 +130,21 @@ func newSynWorld(c *mon.Case, p synP) *synWorld {
 }
 
 func (sw *synWorld) setMode(m string) { sw.mmu.Lock(); sw.mode = m; sw.mmu.Unlock() }
+
+func (sw *synWorld) noteTimewarp(h H) {
+	sw.mmu.Lock()
+	if sw.timewarps == nil {
+		sw.timewarps = map[string]bool{}
+	}
+	sw.timewarps[string(h.Hash())] = true
+	sw.mmu.Unlock()
+}
+
+func (sw *synWorld) isTimewarp(h H) bool {
+	sw.mmu.Lock()
+	defer sw.mmu.Unlock()
+	return sw.timewarps[string(h.Hash())]
+}
 
 // runSteps executes the script and collects observations.
 func (sw *synWorld) runSteps(p synP, obs *synObs) {
@@ -210,6 +226,7 @@ func (sw *synWorld) runSteps(p synP, obs *synObs) {
 			// the order, at most one of them can be accepted.
 			tip := sw.tipNow()
 			a, b := mk("canonical", tip+1, 0), mk(vh.VTimewarp, tip+2, uint64(i))
+			sw.noteTimewarp(b) // may legitimately be adopted (and appended) if it is verified before A arrives
 			if sw.ctl != nil {
 				sw.ctl.Pause()
 			}
@@ -345,7 +362,7 @@ func c03Run(c *mon.Case, p synP) {
 			return
 		}
 		obs := &synObs{}
-		sw.tolerateBad = func(h H) bool { return h != nil && h.Signed && h.Chain == sw.chain.ID && obs.tainted.Load() }
+		sw.tolerateBad = func(h H) bool { return h != nil && sw.isTimewarp(h) }
 		sw.runSteps(p, obs)
 		sw.setMode("ok")
 		sw.settle()
